@@ -2,6 +2,7 @@ package props
 
 import (
 	"fmt"
+	"strings"
 	"testing"
 
 	"verif/harness/ast"
@@ -295,6 +296,57 @@ func genC15Sort(t *rapid.T) *DCase {
 	)))}
 }
 
+// genC15Long: an array of 0-300 elements (pushed, or taken from the document) that is
+// also held by a second variable, an object member and (when it is the root) the rule
+// driver; phases of 1-200 pushes / pops / popfirsts / stores through one of the
+// references, each followed by a look at the array through every reference.
+func genC15Long(t *rapid.T) *DCase {
+	n := rapid.SampledFrom([]int{0, 1, 15, 16, 17, 31, 32, 33, 63, 64, 65, 100, 127, 128, 129, 200, 257, 300}).Draw(t, "n0")
+	sv, tv := ast.Id("s"), ast.Id("t")
+	ok := func() *ast.Node { return ast.Mem(ast.Id("o"), "k") }
+	refs := []func() *ast.Node{func() *ast.Node { return sv.Clone() }, func() *ast.Node { return tv.Clone() }, ok}
+	num := func(k int) *ast.Node { return ast.Num(fmt.Sprint(k)) }
+	length := func(e *ast.Node) *ast.Node { return ast.Method(e, "length") }
+	look := ast.Func("look", []string{"tag"}, ast.Block(ast.Print(ast.Id("tag"), length(sv.Clone()), length(tv.Clone()), length(ok()),
+		ast.Idx(sv.Clone(), num(0)), ast.Idx(tv.Clone(), ast.Un("-", num(1))), ast.Idx(ok(), num(1)), length(ast.Mem(ast.Dollar(), "big")))))
+	loop := func(cnt int, body *ast.Node) *ast.Node {
+		return ast.For(ast.Set(ast.Id("j"), num(0)), ast.Bin("<", ast.Id("j"), num(cnt)), ast.Post("++", ast.Id("j")), ast.Block(ast.ExprS(body)))
+	}
+	var items []string
+	for i := 0; i < n; i++ {
+		items = append(items, fmt.Sprint(i))
+	}
+	doc := `{"big":[` + strings.Join(items, ",") + `]}`
+	var stmts []*ast.Node
+	if rapid.Bool().Draw(t, "fromdoc") {
+		stmts = append(stmts, ast.ExprS(ast.Set(sv.Clone(), ast.Mem(ast.Dollar(), "big"))))
+	} else {
+		stmts = append(stmts, ast.ExprS(ast.Set(sv.Clone(), ast.Arr())),
+			ast.For(ast.Set(ast.Id("i"), num(0)), ast.Bin("<", ast.Id("i"), num(n)), ast.Post("++", ast.Id("i")), ast.Block(ast.ExprS(ast.Method(sv.Clone(), "push", ast.Id("i"))))))
+	}
+	call := func(tag string) *ast.Node { return ast.ExprS(ast.Set(ast.Id("lk"), ast.Call(ast.Id("look"), ast.Str(tag)))) }
+	stmts = append(stmts, ast.ExprS(ast.Set(tv.Clone(), sv.Clone())), ast.ExprS(ast.Set(ast.Id("o"), ast.Obj(ast.KV("k", sv.Clone())))), call("L0"))
+	phases := rapid.IntRange(2, 7).Draw(t, "phases")
+	for p := 1; p <= phases; p++ {
+		r := refs[rapid.IntRange(0, len(refs)-1).Draw(t, "ref")]
+		cnt := rapid.SampledFrom([]int{1, 2, 3, 15, 16, 17, 33, 48, 49, 64, 65, 100, 150, 200}).Draw(t, "count")
+		switch rapid.IntRange(0, 5).Draw(t, "phaseop") {
+		case 0, 1:
+			stmts = append(stmts, loop(cnt, ast.Method(r(), "pop")))
+		case 2:
+			stmts = append(stmts, loop(cnt, ast.Method(r(), "popfirst")))
+		case 3, 4:
+			stmts = append(stmts, loop(cnt, ast.Method(r(), "push", ast.Bin("+", ast.Str(fmt.Sprintf("p%d-", p)), ast.Id("j")))))
+		default:
+			stmts = append(stmts, ast.If(ast.Bin(">", length(r()), num(0)), ast.Block(ast.ExprS(ast.Set(ast.Idx(r(), num(0)), ast.Str(fmt.Sprintf("w%d", p)))))),
+				ast.ExprS(ast.Set(ast.Idx(r(), ast.Bin("+", length(r()), num(cnt%5))), ast.Str(fmt.Sprintf("e%d", p)))))
+		}
+		stmts = append(stmts, call(fmt.Sprintf("L%d", p)))
+	}
+	stmts = append(stmts, ast.Print(ast.Str("S"), sv.Clone()))
+	return &DCase{Prog: ast.Prog(look, ast.Rule("pattern", nil, ast.Block(stmts...))), Files: []DFile{{Name: "in", Docs: []string{doc}}}}
+}
+
 func TestC15(t *testing.T) {
 	rec := start(t, "C15", "exploration",
 		"state machine over five arrays (three global variables, $.list inside the document, o.items inside an object), one operation per step reached through the name or path that holds the array: push, pop, popfirst, index read and write (in range, = len, negative in range, before the start, past the end), length, contains, sort, use of push's result, a push of a value read from a place that does not exist followed by a write to that element, and nested calls (a.push(b.pop()), a.push(b.length()), a.contains(b.popfirst()), a.push(a.pop()), a.push(b.push(1).length()), a[b.length()]) with element values of every kind (0 and -0, 1 and \"1\", containers). Every step prints its result and then every array with its length; expected from refjq's list model. A second family sorts arrays of up to 48 elements drawn from a pool full of ties (true / false / null / [] / {} all have the string form \"\"; 1 and \"1\"; 0 and -0). Non-trivial: popfirst followed by push on the same array, a nested call touching two arrays, a sort with ties, a negative index, or >= 8 actions. distinct = distinct program.")
@@ -310,6 +362,12 @@ func TestC15(t *testing.T) {
 	if evThorough() {
 		maxActions = 60
 	}
+	// long arrays held by several references: growth and shrinking across every size
+	// class of the underlying storage, operated through alternating references
+	check(rec, "long-shared", scale(1500, 400000), func(rt *rapid.T) {
+		c := genC15Long(rt)
+		runDiff(rec, rt, "list", c, false, nil, "long-shared")
+	})
 	check(rec, "sort-long-ties", scale(3000, 2000000), func(rt *rapid.T) {
 		c := genC15Sort(rt)
 		runDiff(rec, rt, "list", c, false, func(d *diffResult) bool { return d.Ref.Events["sort-ties"] > 0 }, "sort-long")
